@@ -889,6 +889,8 @@ def _read_side_band64k_data(pkt_seq: Iterable[bytes]) -> Iterator[tuple[int, byt
       pkt_seq: Sequence of packets to read
     """
     for pkt in pkt_seq:
+        if not pkt:
+            raise GitProtocolError("side-band packet without a band designator")
         channel = ord(pkt[:1])
         yield channel, pkt[1:]
 
